@@ -17,8 +17,19 @@ from ..common import answer, err_kind, ev_tuple, mk_event, p_ev, p_list
 SEC = 1_000_000
 
 
+_LAB = {}
+
+
 def label(s, i):
-    return json.dumps({"i": i, "s": s}, sort_keys=True, separators=(",", ":"))
+    k = (s, i)
+    if k not in _LAB:
+        _LAB[k] = json.dumps({"i": i, "s": s}, sort_keys=True, separators=(",", ":"))
+    return _LAB[k]
+
+
+def origin(data_text):
+    """1 / 2 from a label text '{"i":k,"s":1}'"""
+    return 1 if data_text.endswith('"s":1}') else 2 if data_text.endswith('"s":2}') else 0
 
 
 def full(case, s):
@@ -26,10 +37,20 @@ def full(case, s):
     u = case["u"]
     du = case.get("du", u)
     assert u % 1000 == 0
-    out = []
-    for i, e in enumerate(case["l1" if s == 1 else "l2"]):
-        out.append([e[2] if len(e) > 2 else None, e[0] * u, e[1] * du, label(s, i)])
-    return out
+    return [[e[2] if len(e) > 2 else None, e[0] * u, e[1] * du, label(s, i)]
+            for i, e in enumerate(case["l1" if s == 1 else "l2"])]
+
+
+_MEMO = [None, None]
+
+
+def facts(case):
+    """(L1, L2, in_scope, some-pair-meets) of a case; one-entry memo (oracle, nontrivial and features are called in a row)"""
+    if _MEMO[0] is not case:
+        L1, L2 = full(case, 1), full(case, 2)
+        ok = good(L1) and good(L2) and aligned(L1)
+        _MEMO[0], _MEMO[1] = case, (L1, L2, ok, ok and any(meets(e, f) for e in L1 for f in L2))
+    return _MEMO[1]
 
 
 def good(l):
@@ -102,8 +123,9 @@ class C15(Prop):
     ]
     LEVEL_TEXT = (
         "Machine-checked Lean 4 theorems (list1_intact, list2_pieces, list2_pieces_within, list2_zero_length, "
-        "out_nonoverlap, cover_union for all sorted internally non-overlapping lists with durations >= 0; terminates for all "
-        "integer inputs) over a branch-for-branch model of the union_no_overlap loop and _split_event; the model is compared "
+        "out_nonoverlap, cover_union for all sorted internally non-overlapping lists with durations >= 0 whose list-one "
+        "durations are whole milliseconds; terminates for all integer inputs) over a branch-for-branch model of the "
+        "union_no_overlap loop, _split_event and the millisecond floor of Event.timestamp; the model is compared "
         "with the real function on every pair of small-scope lists and on random long lists on every run, and the property "
         "is also evaluated directly on the real outputs"
     )
@@ -117,6 +139,7 @@ class C15(Prop):
         "every pair of sorted non-overlapping lists with <=2 + <=3 events on the points 0..5 (quick) / <=3 + <=3 on 0..6 "
         "(thorough), zero-length events and touching events included; seeded random lists of up to 14 events drawn from a "
         "shared pool of millisecond instants (so edges coincide often), mixed UTC offsets and ids; one event spanning many; "
+        "chains of 50-300 events with dense edges; "
         "microsecond durations on millisecond instants (list one on whole ms: full property; otherwise correspondence only); "
         "arbitrary integer lists (unsorted, negative durations) for correspondence and termination only; "
         "non-trivial = some event of list one meets some event of list two"
@@ -168,6 +191,11 @@ class C15(Prop):
         add([], [])
         add([[0, 1], [3, 1], [6, 1]], [[0, 2], [2, 2], [4, 2], [6, 2]])  # the layout of the suite, shifted
         add([[1, 2, 7], [4, 0, 8], [4, 3, None]], [[0, 9, 3]])  # ids survive the cuts
+        # microsecond durations on millisecond instants (u = 1 ms, du = 1 us)
+        ms = lambda l1, l2: n.append(("named", {"u": 1000, "du": 1, "l1": l1, "l2": l2}))
+        ms([[0, 2_000_000]], [[1000, 1_500_500], [2501, 499]])  # list one on whole ms: exact pieces
+        ms([[0, 12_345_678]], [[5000, 20_000_000]])  # list-one end between two ms: the tail is floored (not judged)
+        ms([[0, 3]], [[0, 14], [1, 3_330_015]])  # ... must still end after a few iterations
         return n
 
     def gen(self, ctx):
@@ -238,6 +266,16 @@ class C15(Prop):
                 return l
 
             out.append(("subms", {"u": 1000, "du": 1, "l1": mk(sub1), "l2": mk(True)}))
+        for _ in range(ctx.pick(20, 300)):
+            # long lists (hundreds of events), dense edges: every branch many times in one run
+            def longchain(k):
+                pts, t = [], rng.randint(0, 5)
+                for _ in range(2 * k):
+                    pts.append(t)
+                    t += rng.choice([0, 0, 1, 1, 2, 3, rng.randint(0, 40)])
+                return [[pts[2 * i], pts[2 * i + 1] - pts[2 * i]] for i in range(k)]
+
+            out.append(("long", {"u": 1000, "l1": longchain(rng.randint(50, 300)), "l2": longchain(rng.randint(50, 300))}))
         for _ in range(ctx.pick(1500, 60000)):
             # arbitrary integers: unsorted, overlapping, negative durations (outside the precondition)
             mk = lambda: [[rng.randint(-3, 12), rng.choice([0, 1, 2, rng.randint(-3, 8)]) * rng.choice([1000, 1000, 1, 250])]
@@ -276,7 +314,7 @@ class C15(Prop):
             tag = t.tok()
             e = t.ev()
             out.append(e)
-            if json.loads(e[3]).get("s") != (1 if tag == "1" else 2):
+            if origin(e[3]) != (1 if tag == "1" else 2):
                 tags_ok = False
         assert t.done()
         r = {"out": out, "inputs_same": True}
@@ -290,7 +328,7 @@ class C15(Prop):
             return f"union_no_overlap raised {out[1]}"
         if not out["inputs_same"]:
             return "the input lists or their events were modified"
-        L1, L2 = full(case, 1), full(case, 2)
+        L1, L2, in_scope, _ = facts(case)
         o = out["out"]
         lab1 = {e[3] for e in L1}
         lab2 = {e[3]: e for e in L2}
@@ -300,7 +338,7 @@ class C15(Prop):
             return "output contains an event whose data belongs to no input event"
         if o1 != L1:
             return f"list-one events not returned unchanged and in order: {o1} vs {L1}"
-        if not (good(L1) and good(L2) and aligned(L1)):
+        if not in_scope:
             return None  # outside the precondition: only the unconditional parts above
         cover1 = norm([[e[1], e[1] + e[2]] for e in L1])
         for f in L2:
@@ -338,12 +376,11 @@ class C15(Prop):
         return None
 
     def nontrivial(self, case, out):
-        L1, L2 = full(case, 1), full(case, 2)
-        return good(L1) and good(L2) and aligned(L1) and any(meets(e, f) for e in L1 for f in L2)
+        return facts(case)[3]
 
     def features(self, case, out):
-        L1, L2 = full(case, 1), full(case, 2)
-        if not (good(L1) and good(L2) and aligned(L1)):
+        L1, L2, in_scope, any_meets = facts(case)
+        if not in_scope:
             return ["outside-precondition"]
         ft = []
         if any(sum(1 for f in L2 if meets(e, f)) >= 2 for e in L1):
@@ -358,9 +395,9 @@ class C15(Prop):
         if any(x in ends1 for f in L2 for x in (f[1], f[1] + f[2])):
             ft.append("shared-edge")
         if not isinstance(out, list):
-            n2 = sum(1 for e in out["out"] if json.loads(e[3])["s"] == 2)
+            n2 = sum(1 for e in out["out"] if origin(e[3]) == 2)
             ft.append("l2-pieces:" + ("fewer" if n2 < len(L2) else "same" if n2 == len(L2) else "more"))
-        if not any(meets(e, f) for e in L1 for f in L2):
+        if not any_meets:
             ft.append("disjoint")
         return ft
 
